@@ -71,7 +71,7 @@ def make_hist(rng, d, who=0):
     return {"who": who, "v": v, "use": rng.choice(("receiver", "receiver", "returned")), "touch": rng.random() < 0.75,
             "sib": rng.choice((None, None, "neg", "copy")), "neg": rng.choice((None, None, None, "before", "after")),
             "w": tuple(gen.F(rng.randint(-4, 4), 2) for _ in range(3)), "alias": rng.random() < 0.25,
-            "split": rng.random() < 0.35, "nt": rng.choice(("float", "float", "float", "int", "Fraction")),
+            "split": rng.random() < 0.35, "nt": rng.choice(("float", "float", "int", "int", "Fraction")),
             "assign": d[0] == "S" and rng.random() < 0.3}
 
 
